@@ -25,8 +25,9 @@ pub fn build(prop: &str, draws: &[u16], tier: Tier) -> Case {
     // stream selection: 0..=5 main stream (shape / free-form), 6 quarantined (known-defect classes)
     let sel = s.pick(8);
     let (family, prog) = match sel {
-        0 | 1 | 2 => ("shape", gen::litmus_shape(&mut s, &params(tier, false))),
-        3 | 4 | 5 | 6 => ("free", gen::litmus(&mut s, &params(tier, false))),
+        0 | 1 => ("shape", gen::litmus_shape(&mut s, &params(tier, false))),
+        2 | 3 => ("chain", gen::litmus_chain(&mut s, &params(tier, false))),
+        4 | 5 | 6 => ("free", gen::litmus(&mut s, &params(tier, false))),
         _ => ("quarantine", gen::litmus(&mut s, &params(tier, true))),
     };
     let mut c = Case::new(prop, family, prog);
@@ -106,7 +107,26 @@ pub fn eval(case: &Case, must: bool) -> Verdict {
         "A": set_str(&br.a.outcomes), "U": set_str(&br.u.outcomes), "L": set_str(&l),
     });
     if must {
-        let missing: Vec<&Outcome> = br.a.outcomes.iter().filter(|o| !l.contains(*o)).collect();
+        // outcomes that need the SeqCst fences ordered against the execution order (finding F12)
+        let a_op = br.a_op.as_ref().map(|r| &r.outcomes).unwrap_or(&br.a.outcomes);
+        if a_op.len() != br.a.outcomes.len() {
+            v.label("class:sc_fence_order");
+        }
+        let missing_all: Vec<&Outcome> = br.a.outcomes.iter().filter(|o| !l.contains(*o)).collect();
+        let missing: Vec<&Outcome> = a_op.iter().filter(|o| !l.contains(*o)).collect();
+        if missing.is_empty() {
+            if let Some(m) = missing_all.first() {
+                let w = br.a.witness.get(*m).cloned().unwrap_or_default();
+                v.detail["missing"] = serde_json::json!(missing_all.iter().map(|o| fmt_outcome(o)).collect::<Vec<_>>());
+                return v.fail(
+                    "missing_outcome_fence_order",
+                    format!(
+                        "RC11-consistent outcome never explored, and every execution producing it orders two SeqCst fences against po ∪ rf: {}  (witness: {})",
+                        fmt_outcome(m), w
+                    ),
+                );
+            }
+        }
         if let Some(m) = missing.first() {
             let w = br.a.witness.get(*m).cloned().unwrap_or_default();
             let msg = format!(
